@@ -29,6 +29,7 @@ type c07Scenario struct {
 	TrackedJoin bool   `json:"tracked_join"` // with tracking: join a channel with other users during the session
 	RateLimit   bool   `json:"rate_limit"`   // flood control ON (each case costs seconds)
 	PingFreqMS  int    `json:"ping_freq_ms"`
+	TimeoutMS   int    `json:"timeout_ms"` // Config().Timeout lowered on the live client (0: default); the scripted server never answers the client's PINGs
 	Welcome     string `json:"welcome"` // none, same, new
 	Cycles      int    `json:"cycles"`
 
@@ -53,6 +54,7 @@ func genC07(t *rapid.T) *c07Scenario {
 		TrackedJoin:    rapid.IntRange(0, 2).Draw(t, "tracked_join") > 0,
 		RateLimit:      rapid.IntRange(0, envInt("VERIF_C07_RL_ONE_IN", 50)-1).Draw(t, "rate_limit") == envInt("VERIF_C07_RL_ONE_IN", 50)/2+3, // interior value: rapid favours the ends of a range
 		PingFreqMS:     rapid.SampledFrom([]int{0, 0, 3, 180000}).Draw(t, "pingfreq"),
+		TimeoutMS:      rapid.SampledFrom([]int{0, 0, 5}).Draw(t, "timeout_ms"),
 		Welcome:        rapid.SampledFrom([]string{"none", "same", "same", "new"}).Draw(t, "welcome"),
 		Cycles:         rapid.SampledFrom([]int{1, 1, 2, 2, 3, 5}).Draw(t, "cycles"),
 		InBacklog:      rapid.SampledFrom([]int{0, 5, 30, 70, 120, 400}).Draw(t, "in_backlog"),
@@ -192,6 +194,11 @@ func runC07(sc *c07Scenario) *Violation {
 	if err := connect(); err != nil {
 		return fail("first Connect: %v", err)
 	}
+	if sc.TimeoutMS > 0 {
+		// a short time-out setting must not, by itself, end a connection to a server that merely has
+		// nothing to say
+		tc.C.Config().Timeout = time.Duration(sc.TimeoutMS) * time.Millisecond
+	}
 	curNick := "me"
 	queues := map[int]reflect.Value{}
 	for cycle := 0; cycle < sc.Cycles; cycle++ {
@@ -208,7 +215,9 @@ func runC07(sc *c07Scenario) *Violation {
 		lines, _ := SplitCRLF(conn.Written())
 		var reg []string
 		for _, l := range lines {
-			if !strings.HasPrefix(l, "PING :") && !strings.HasPrefix(l, "USER-LINE") && !strings.HasPrefix(l, "EMIT") && len(reg) < 2 {
+			// (lines of the application's own goroutines - and the harness's write trigger, which is one of
+			// them - may land on whichever connection is current when they get to run)
+			if !strings.HasPrefix(l, "PING :") && !strings.HasPrefix(l, "USER-LINE") && !strings.HasPrefix(l, "EMIT") && l != "TRIGGER-WRITE" && len(reg) < 2 {
 				reg = append(reg, l)
 			}
 		}
